@@ -41,7 +41,7 @@ VARIABLES
     ll,             \* [nil, c: Content]   collection.lowerLevelSnapshot
     store,          \* Content: what the lower level holds (Store.Snapshot())
     upto,           \* [mid, base, store: Nat] number of batches covered (reference bookkeeping)
-    cached,         \* [on, c]  collection.latestSnapshot
+    cached,         \* [on, c, m]  collection.latestSnapshot: content, and content read with SkipLowerLevel
     mPc, mw,        \* merger program counter and private work (locals of runMerger)
     pPc,            \* persister program counter
     life,           \* "open" | "closing" | "closed";  mEx/pEx: goroutines gone
@@ -116,7 +116,15 @@ BatchWF(b) ==
     /\ \/ SegLen(b[Root].ops) > 0
        \/ \E p \in Paths \ {Root} : b[p].kind # "none"   \* batch.isEmpty()
 
-Batches == {b \in [Paths -> BNodes] : BatchWF(b)}
+\* An operation with an oversize key ("xk", 2^24 bytes or more) or an oversize value ("xv",
+\* 2^28 bytes or more) is rejected by the batch with ErrKeyTooLarge / ErrValueTooLarge
+\* (segment.go:256-263) and leaves the other operations of the batch alone: what reaches
+\* ExecuteBatch is the batch without them.
+Rejected(op) == op.o \in {"xk", "xv"}
+NormOps(ops) == [k \in Keys |-> IF Rejected(ops[k]) THEN NoOp ELSE ops[k]]
+Norm(b) == [p \in Paths |-> [b[p] EXCEPT !.ops = NormOps(b[p].ops)]]
+
+Batches == {b \in [Paths -> BNodes] : BatchWF(Norm(b))}
 
 \* Reference semantics of a batch (what the API documents).
 RECURSIVE RefExAfter(_, _, _)
@@ -177,6 +185,13 @@ AllSecs == <<clean, base, mid, top>>
 View == TreeContent(SnapTree(AllSecs))
 ViewNoClean == TreeContent(SnapTree(<<base, mid, top>>))
 
+\* What a read with ReadOptions.SkipLowerLevel returns for the top-level collection: the
+\* in-memory sections only (it depends on how far the merger has materialised merge operands
+\* and on what has been persisted, so it is part of the implementation-shaped state).
+MemView == LET segs == Concat(AllSecs, Root, 4) IN [k \in Keys |-> EvalSegs(segs, Len(segs), k, Absent)]
+
+NoCache == [on |-> FALSE, c |-> [p \in Paths |-> [ex |-> FALSE, m |-> AllAbsent]], m |-> AllAbsent]
+
 \* Collection.Get (collection.go:631-684): per-section lookups that skip the
 \* lower level, chained while the result is nil, then the lower level.
 SecGet(s, k) ==   \* s.Get(key, SkipLowerLevel)
@@ -215,7 +230,7 @@ Init ==
     /\ ll = [nil |-> ~(HasLL /\ LLInit), c |-> InitContent]
     /\ store = InitContent
     /\ upto = [mid |-> 0, base |-> 0, store |-> 0]
-    /\ cached = [on |-> FALSE, c |-> Obs(EmptyContent)]
+    /\ cached = NoCache
     /\ mPc = "idle" /\ mw = [t |-> NoTree, base |-> NilSec, all |-> FALSE]
     /\ pPc = "idle"
     /\ life = "open" /\ mEx = FALSE /\ pEx = FALSE
@@ -269,22 +284,23 @@ TopAfter(b) ==
 Expect ==
     [ref |-> ref', gz |-> GaugesZero', st |-> Obs(store'), up |-> upto'.store, nb |-> Len(refs') - 1,
      h |-> <<Hn(top'), Hn(mid'), Hn(base'), Hn(clean')>>,
-     snaps |-> [i \in 1..MaxSnaps |-> snaps'[i]], dg |-> [k \in Keys |-> DirectGet(k)'],
+     snaps |-> [i \in 1..MaxSnaps |-> snaps'[i]], dg |-> [k \in Keys |-> DirectGet(k)'], mv |-> MemView',
      so |-> (TreeSegCount(top') + TreeSegCount(mid') + TreeSegCount(base') = 0)]
 
 Log(act, arg) == hist' = Append(hist, [act |-> act, arg |-> arg, exp |-> Expect])
 
-ExecuteBatch(b) ==
+ExecuteBatch(b0) ==
+    LET b == Norm(b0) IN
     /\ life = "open"
     /\ H(top, Root) < MaxPre
     /\ Len(refs) <= MaxBatches
     /\ coll' = CollAfter(b)
     /\ top' = TopAfter(b)
-    /\ cached' = [cached EXCEPT !.on = FALSE]
+    /\ cached' = NoCache
     /\ ref' = ApplyBatch(ref, b)
     /\ refs' = Append(refs, ApplyBatch(ref, b))
     /\ UNCHANGED <<mid, base, clean, ll, store, upto, mPc, mw, pPc, life, mEx, pEx, snaps, errs, nre, pokes>>
-    /\ Log("ExecuteBatch", b)
+    /\ Log("ExecuteBatch", b0)
 
 -----------------------------------------------------------------------------
 (* The merger -- collection_merger.go. *)
@@ -306,7 +322,7 @@ MergerIngest(reqAll, poke) ==
        /\ mw' = [t |-> t, base |-> base, all |-> reqAll \/ ~base.nil]
     /\ top' = NilSec
     /\ upto' = [upto EXCEPT !.mid = Len(refs) - 1]
-    /\ cached' = [cached EXCEPT !.on = FALSE]
+    /\ cached' = NoCache
     /\ mPc' = "ingested"
     /\ UNCHANGED <<coll, base, clean, ll, store, pPc, life, mEx, pEx, snaps, ref, refs, errs, nre>>
     /\ Log("MergerIngest", [all |-> reqAll, poke |-> poke])
@@ -318,9 +334,14 @@ BaseUsable(p) ==
     ELSE IF p = Root THEN TRUE
     ELSE BaseUsable(Par[p]) /\ mw.base.t[p].has /\ mw.base.t[p].incar = mw.t[p].incar
 
+\* segmentStack.get with a base (segment_stack.go:117-128): the base's segments over the merging
+\* stack's own lower level snapshot, which was captured under the same lock as the base and is
+\* exactly what lies below it.  Before the L30 repair the base's own snapshot was used, which for a
+\* child collection is as old as the ingest that built the base (deviation MergeBaseUsesBaseLL).
 BaseChain(p, k) ==
     IF BaseUsable(p)
-    THEN EvalSegs(mw.base.t[p].segs, Len(mw.base.t[p].segs), k, mw.base.t[p].llm[k])
+    THEN EvalSegs(mw.base.t[p].segs, Len(mw.base.t[p].segs), k,
+                  IF Dev("MergeBaseUsesBaseLL") THEN mw.base.t[p].llm[k] ELSE mw.t[p].llm[k])
     ELSE mw.t[p].llm[k]
 
 MergedSeg(p, lvl) ==
@@ -355,14 +376,18 @@ MergerSwap(lv) ==
                         ELSE [mw.t[p] EXCEPT !.segs = SubSeq(mw.t[p].segs, 1, lv[p]) \o <<MergedSeg(p, lv[p])>>]]]
     /\ mPc' = IF HasLL THEN "swapped" ELSE "idle"
     /\ mw' = [t |-> NoTree, base |-> NilSec, all |-> FALSE]
-    /\ UNCHANGED <<coll, top, base, clean, ll, store, upto, cached, pPc, life, mEx, pEx, snaps, ref, refs, errs, nre, pokes>>
+    \* the swap drops the cached snapshot (collection_merger.go:296-306); it did not before /repo 62f9757
+    /\ cached' = IF TreeEmpty(mw.t) \/ Dev("SwapKeepsCachedSnapshot") THEN cached ELSE NoCache
+    /\ UNCHANGED <<coll, top, base, clean, ll, store, upto, pPc, life, mEx, pEx, snaps, ref, refs, errs, nre, pokes>>
     /\ Log("MergerSwap", [skip |-> TreeEmpty(mw.t)])
 
 \* mergerNotifyPersister 326-348.
 MergerHandoff ==
     /\ mPc = "swapped"
     /\ IF base.nil /\ ~mid.nil
-       THEN /\ base' = [mid EXCEPT !.t[Root].llm = LLMapOf(ll, Root)]
+       THEN \* the handed-off stack reads the lower level of *now* -- at the top level only: the child
+            \* stacks keep the lower level snapshots of the time they were ingested (collection_merger.go:360-365)
+            /\ base' = [mid EXCEPT !.t[Root].llm = LLMapOf(ll, Root)]
             /\ mid' = NilSec
             /\ upto' = [upto EXCEPT !.base = upto.mid]
        ELSE UNCHANGED <<base, mid, upto>>
@@ -389,10 +414,15 @@ StoreApply(st, t) ==
              [ex |-> TRUE, incar |-> t[p].incar,
               m |-> [k \in Keys |-> EvalSegs(t[p].segs, Len(t[p].segs), k, prev[k])]]]
 
+\* Store.Persist returns early when the stack has no segment at any level (store.go:115-118,
+\* "we're still clean"): a round that carries only structure -- a child collection created
+\* without operations, or deleted -- persists nothing (open finding, DESIGN.md section 13).
+NoopRound == Dev("StructureOnlyRoundIsNoop") /\ LLInit /\ TreeEmpty(base.t)
+
 PersisterUpdate ==      \* 58-81, LowerLevelUpdate succeeded
     /\ pPc = "idle" /\ ~pEx /\ ~base.nil /\ life = "open"
-    /\ store' = StoreApply(store, base.t)
-    /\ upto' = [upto EXCEPT !.store = upto.base]
+    /\ store' = IF NoopRound THEN store ELSE StoreApply(store, base.t)
+    /\ upto' = IF NoopRound THEN upto ELSE [upto EXCEPT !.store = upto.base]
     /\ pPc' = "updated"
     /\ UNCHANGED <<coll, top, mid, base, clean, ll, cached, mPc, mw, life, mEx, pEx, snaps, ref, refs, errs, nre, pokes>>
     /\ Log("PersisterUpdate", [ok |-> TRUE])
@@ -409,7 +439,7 @@ PersisterSwap ==        \* 86-106
     /\ ll' = [nil |-> FALSE, c |-> store]
     /\ clean' = IF CachePersisted /\ (Dev("CleanKeepsMergeOps") \/ ~TreeHasMrg(base.t)) THEN base ELSE NilSec
     /\ base' = NilSec
-    /\ cached' = [cached EXCEPT !.on = FALSE]
+    /\ cached' = NoCache
     /\ pPc' = "idle"
     /\ UNCHANGED <<coll, top, mid, store, upto, mPc, mw, life, mEx, pEx, snaps, ref, refs, errs, nre, pokes>>
     /\ Log("PersisterSwap", [x |-> 0])
@@ -430,7 +460,7 @@ TakeSnapshot(i) ==
     /\ FreeSnap(i)
     /\ LET c == IF cached.on THEN cached.c ELSE View IN
        /\ snaps' = [snaps EXCEPT ![i] = [open |-> TRUE, c |-> c]]
-       /\ cached' = [on |-> TRUE, c |-> c]
+       /\ cached' = [on |-> TRUE, c |-> c, m |-> IF cached.on THEN cached.m ELSE MemView]
     /\ UNCHANGED <<coll, top, mid, base, clean, ll, store, upto, mPc, mw, pPc, life, mEx, pEx, ref, refs, errs, nre, pokes>>
     /\ Log("TakeSnapshot", [id |-> i])
 
@@ -446,7 +476,7 @@ CloseSnapshot(i) ==
 CloseBegin ==
     /\ life = "open"
     /\ life' = "closing"
-    /\ cached' = [cached EXCEPT !.on = FALSE]
+    /\ cached' = NoCache
     /\ UNCHANGED <<coll, top, mid, base, clean, ll, store, upto, mPc, mw, pPc, mEx, pEx, snaps, ref, refs, errs, nre, pokes>>
     /\ Log("CloseBegin", [x |-> 0])
 
@@ -485,14 +515,18 @@ Reopen ==
 -----------------------------------------------------------------------------
 Lvls == [Paths -> 0..2]
 
-Next ==
-    \/ \E b \in Batches : ExecuteBatch(b)
+Workers ==      \* the merger and the persister goroutines
     \/ \E a \in BOOLEAN, k \in BOOLEAN : MergerIngest(a, k)
     \/ \E lv \in Lvls : MergerSwap(lv)
     \/ MergerHandoff
     \/ MergerExit
     \/ PersisterUpdate \/ PersisterFail \/ PersisterSwap \/ PersisterExit
-    \/ \E i \in 1..MaxSnaps : TakeSnapshot(i) \/ CloseSnapshot(i)
+Handles == \E i \in 1..MaxSnaps : TakeSnapshot(i) \/ CloseSnapshot(i)
+
+Next ==
+    \/ \E b \in Batches : ExecuteBatch(b)
+    \/ Workers
+    \/ Handles
     \/ CloseBegin \/ CloseEnd \/ Reopen
 
 Spec == Init /\ [][Next]_vars
@@ -513,6 +547,9 @@ DirectGetAgrees == Live => \A k \in Keys : DirectGet(k) = View[Root].m[k]
 
 \* the cached snapshot is never stale.
 CachedIsRef == cached.on => cached.c = ref
+\* C10 with SkipLowerLevel: a snapshot handed out from the cache reads the in-memory sections
+\* exactly as Collection.Get (which always reads the current sections) does.
+CachedMemIsMem == cached.on => cached.m = MemView
 
 \* C04: what the lower level holds is the reference after a prefix of batches.
 StoreIsPrefix == HasLL => Obs(store) = refs[upto.store + 1]
